@@ -50,27 +50,33 @@ def run(ctx):
     r1 = rep.rule('C05-R1', 'type/op/code gates: ARP replies only to operation 1; ICMPv4 only to (type 8, code 0); ICMPv6 only to code 0 and types {135 NS, 128 echo request}; every other value reaches no reply', floor=7)
     g = int_edges(arp, 'get_operation', 1)
     sp = some_points(arp)
-    rep.check(r1, bool(g) and bool(sp) and not arp.must_pass(g, sp), 'arp:operation==1', 'reply reachable only through the operation==Request edge: %s' % (bool(g) and not arp.must_pass(g, sp)), arp.loc(sp[0]) if sp else '')
+    okg, dg = value_required_at(arp, sp, rq('get_operation'), {1})
+    rep.check(r1, okg, 'arp:operation==1', 'reply only on path states with operation == Request: %s' % dg, arp.loc(sp[0]) if sp else '')
     for bi in range(arp.n):
         se = arp.switch_edges(bi)
         if se and isinstance(se[0], tuple) and se[0][0] == 'field' and rq('get_operation')(se[0][1]):
             rep.check(r1, se[2] == [1], 'arp:handled-ops', 'operations with an arm: %s' % se[2], arp.loc(bi))
     g1, g2 = int_edges(i4, 'get_icmp_type', 8), code_zero_edges(i4, 'get_icmp_code')
     sp = some_points(i4)
-    rep.check(r1, bool(g1) and bool(sp) and not i4.must_pass(g1, sp), 'icmpv4:type==8', 'reply only through type==EchoRequest', i4.loc(sp[0]) if sp else '')
-    rep.check(r1, bool(g2) and bool(sp) and not i4.must_pass(g2, sp), 'icmpv4:code==0', 'reply only through code==0: %s' % bool(g2), i4.loc(sp[0]) if sp else '')
+    okg, dg = value_required_at(i4, sp, rq('get_icmp_type'), {8})
+    rep.check(r1, okg, 'icmpv4:type==8', 'reply only on path states with type == EchoRequest: %s' % dg, i4.loc(sp[0]) if sp else '')
+    okg, dg = value_required_at(i4, sp, rq('get_icmp_code'), {0})
+    rep.check(r1, okg, 'icmpv4:code==0', 'reply only on path states with code == 0: %s' % dg, i4.loc(sp[0]) if sp else '')
     for bi in range(i4.n):
         se = i4.switch_edges(bi)
         if se and isinstance(se[0], tuple) and se[0][0] == 'field' and rq('get_icmp_type')(se[0][1]):
             rep.check(r1, se[2] == [8], 'icmpv4:handled-types', 'types with an arm: %s' % se[2], i4.loc(bi))
     gc = code_zero_edges(i6, 'get_icmpv6_code')
     sp = some_points(i6)
-    rep.check(r1, bool(gc) and bool(sp) and not i6.must_pass(gc, sp), 'icmpv6:code==0', 'reply only through code==0: %s' % bool(gc), i6.loc(sp[0]) if sp else '')
+    okg, dg = value_required_at(i6, sp, rq('get_icmpv6_code'), {0})
+    rep.check(r1, okg, 'icmpv6:code==0', 'reply only on path states with code == 0: %s' % dg, i6.loc(sp[0]) if sp else '')
     # also no lower call (nd_ns_repl) before the code gate
     ndc = [b for b, t in i6.calls(r'nd_ns_repl$')]
-    rep.check(r1, bool(ndc) and not i6.must_pass(gc, ndc), 'icmpv6:nd-after-code-gate', 'neighbour solicitation handling lies behind code==0', i6.loc(ndc[0]) if ndc else '')
+    okg, dg = value_required_at(i6, ndc, rq('get_icmpv6_code'), {0})
+    rep.check(r1, okg, 'icmpv6:nd-after-code-gate', 'neighbour solicitation handling only on path states with code == 0: %s' % dg, i6.loc(ndc[0]) if ndc else '')
     gt = int_edges(i6, 'get_icmpv6_type', 135) + int_edges(i6, 'get_icmpv6_type', 128)
-    rep.check(r1, bool(gt) and not i6.must_pass(gt, sp), 'icmpv6:type in {135,128}', 'reply only through the NS / echo-request type edges', i6.loc(sp[0]) if sp else '')
+    okg, dg = value_required_at(i6, sp, rq('get_icmpv6_type'), {135, 128})
+    rep.check(r1, okg, 'icmpv6:type in {135,128}', 'reply only on path states with type NS / echo request: %s' % dg, i6.loc(sp[0]) if sp else '')
     for bi in range(i6.n):
         se = i6.switch_edges(bi)
         if se and isinstance(se[0], tuple) and se[0][0] == 'field' and rq('get_icmpv6_type')(se[0][1]):
